@@ -117,7 +117,11 @@ class Sim:
         # id keys renumbered by a bulk re-enable: the undo history still replays the old
         # numbers, so these keys are never compared against timeline snapshots again
         self.tainted: set = set()
+        # the harness observes through the public getters after every step; what those reads
+        # do to the object is itself a C16 matter, judged once on the untouched object
+        raw0 = observe.deep(self.tracks) if "C16" in props else None
         self.last_canon = observe.canon(self.tracks)
+        self._getter_diff = observe.deep_diff(raw0, observe.deep(self.tracks), ignore=("counters",)) if raw0 is not None else None
         self.timeline = models.Timeline(self._snap(self.last_canon))
         self.labels: list = []  # transition labels parallel to timeline (named sets)
         self.expected_emissions = 0
@@ -2046,7 +2050,8 @@ class Sim:
                 call("has_track_id_at_time", lambda tid=tid, t=t: tr.has_track_id_at_time(tid, t))
         out = {"cls": "returned", "resolved": {"calls": len(called)}}
         if self.active("C16"):
-            dd = observe.deep_diff(self.pre["deep"], observe.deep(tr, len(self.emissions)), ignore=("counters",))
+            # (the id counters too: no call of the battery issues an id)
+            dd = observe.deep_diff(self.pre["deep"], observe.deep(tr, len(self.emissions)), ignore=())
             if dd:
                 self.violate("C16", "C16.query", f"read-only queries changed {dd[:2]}", op)
             else:
@@ -2073,7 +2078,7 @@ class Sim:
         """Continue the session on a rebuilt object (crash-restart)."""
         self.tracks = tracks
         self.with_seg = tracks.segmentation is not None
-        worldmod.register_custom(tracks)
+        worldmod.register_custom(tracks, self.world.get("score_default"))
         self._connect()
         self.epochs = {}
         self.tainted = set()
@@ -2093,6 +2098,9 @@ class Sim:
         op = {"op": "init"}
         tr = self.tracks
         checks = []
+        if self.active("C16") and self._getter_diff:
+            self.violate("C16", "C16.query", f"reading every registered feature of every element through get_node_attr / get_edge_attr changed {self._getter_diff[:2]}", op, ["init"])
+            return
         if self.active("C03"):
             checks += oracles.structure(tr)
         if self.active("C04"):
